@@ -125,7 +125,13 @@ class C01:
         else:
             r = rnd.random()
             if r < 0.50:
-                kinds = programs.gen_legal_kinds(rnd, end_in_dispmap=False, multiscale=rnd.random() < 0.25)
+                long_ = rnd.random() < 0.12
+                kinds = programs.gen_legal_kinds(rnd, end_in_dispmap=False, multiscale=rnd.random() < 0.25,
+                                                 max_cv=5 if long_ else 3, max_dm=8 if long_ else 4)
+                if long_ and rnd.random() < 0.5 and "disparity" in kinds:
+                    # five or more steps of one kind
+                    k_ = rnd.choice(["filter", "refinement"])
+                    kinds = kinds + [k_] * rnd.randint(3, 5)
                 cls = "legal"
             elif r < 0.75:
                 kinds = edit(rnd, programs.gen_legal_kinds(rnd, end_in_dispmap=False, multiscale=rnd.random() < 0.25))
@@ -144,6 +150,12 @@ class C01:
         if cls in ("legal", "edit") and rnd.random() < 0.3:
             multi_dot = True
         prog = benign_program(rnd, w, kinds, suffix_only_p=suffix_only_p, multi_dot=multi_dot)
+        if cls == "legal" and rnd.random() < 0.15:
+            # consecutive steps of the same kind with exactly the same parameters
+            for i_ in range(len(prog) - 1):
+                if programs.kind_of(prog[i_][0]) == programs.kind_of(prog[i_ + 1][0]) and \
+                        programs.kind_of(prog[i_][0]) in ("filter", "refinement", "cost_volume_confidence", "aggregation"):
+                    prog[i_ + 1][1] = copy.deepcopy(prog[i_][1])
         bad = None
         if cls == "badparam":
             cands = [(i, bp) for i, (n, _) in enumerate(prog) for bp in BAD_PARAMS if bp[0] == programs.kind_of(n)]
